@@ -4,22 +4,53 @@ from __future__ import annotations
 
 
 class SimInterrupt(KeyboardInterrupt):
-    """The user interrupts a computation (Ctrl-C in a notebook): raised from inside a rate law."""
+    """The user interrupts a computation (Ctrl-C in a notebook)."""
 
 
-TRIP: list = [None]  # None = not armed; k = raise at the k-th rate-law evaluation from now
+class Tripper:
+    """Interrupt seam at the model boundary: while armed, the k-th call of one of the model's
+    evaluation methods (made by whatever library code is running) raises SimInterrupt instead
+    of being carried out.  The rate functions themselves stay untouched (they are translated
+    to SBML / source code elsewhere, so they must stay plain)."""
 
+    METHODS = ("update_parameters", "get_args_time_course", "get_right_hand_side_time_course", "get_stoichiometries_of_variable", "get_parameter_values")
 
-def _trip() -> None:
-    if TRIP[0] <= 0:
-        TRIP[0] = None
-        raise SimInterrupt
-    TRIP[0] -= 1
+    def __init__(self, model, k: int) -> None:  # noqa: ANN001
+        self.model = model
+        self.left = int(k)
+        self.fired = False
+
+    def __enter__(self):  # noqa: ANN204
+        # (Model uses __slots__: the seam is installed on the class for the armed window and
+        # only reacts to the one model instance it was armed for)
+        cls = type(self.model)
+        self._saved = {}
+        for name in self.METHODS:
+            real = cls.__dict__.get(name)
+            if real is None:
+                continue
+            self._saved[name] = real
+
+            def wrapper(inst, *a, __real=real, **kw):  # noqa: ANN001, ANN002, ANN003, ANN202
+                if inst is self.model and not self.fired:
+                    if self.left <= 0:
+                        self.fired = True
+                        raise SimInterrupt
+                    self.left -= 1
+                return __real(inst, *a, **kw)
+
+            wrapper.__name__ = name
+            setattr(cls, name, wrapper)
+        return self
+
+    def __exit__(self, *a):  # noqa: ANN002
+        cls = type(self.model)
+        for name, real in self._saved.items():
+            setattr(cls, name, real)
+        return False
 
 
 def const(x):  # noqa: ANN001, ANN201
-    if TRIP[0] is not None:
-        _trip()
     return x
 
 
@@ -47,8 +78,6 @@ def div(x, y):  # noqa: ANN001, ANN201
 
 
 def ma1(s, k):  # noqa: ANN001, ANN201
-    if TRIP[0] is not None:
-        _trip()
     return k * s
 
 
@@ -57,8 +86,6 @@ def ma2(s1, s2, k):  # noqa: ANN001, ANN201
 
 
 def ma1_rev(s, p, kf, kr):  # noqa: ANN001, ANN201
-    if TRIP[0] is not None:
-        _trip()
     return kf * s - kr * p
 
 
